@@ -1653,25 +1653,26 @@ func (gen *Generator) GeneratePackage(expressions []Sexp) error {
 	gen.Tail = false
 
 	gen.AddInstruction(AddScopeInstr{Name: pkgName})
+	// the package's scope counts like any other extra scope: a break,
+	// continue or tail call that leaves the package body has to pop it.
+	gen.scopes++
 	gen.AddInstruction(PushStackmarkInstr{sym: symPkgName})
 
-	if size > 1 {
-		for _, expr := range expressions[1 : size-1] {
-			err := gen.Generate(expr)
-			if err != nil {
-				return err
-			}
+	// no member is in tail position, not even the last: the operands are
+	// cleaned up and the scope is turned into the package value afterwards.
+	for _, expr := range expressions[1:size] {
+		err := gen.Generate(expr)
+		if err != nil {
+			gen.scopes--
+			gen.Tail = oldtail
+			return err
 		}
 	}
-
 	gen.Tail = oldtail
-	err := gen.Generate(expressions[size-1])
-	if err != nil {
-		return err
-	}
 	gen.AddInstruction(PopUntilStackmarkInstr{sym: symPkgName})
 	gen.AddInstruction(PopInstr(0)) // remove the stackmark itself now
 	gen.AddInstruction(PopScopeTransferToDataStackInstr{PackageName: pkgName})
+	gen.scopes--
 	return nil
 }
 
